@@ -97,10 +97,11 @@ def gen_scenarios(tier, seed):
     for i in range(2 * scale):
         out.append(base(rng, family="stop-in-batch-behind-gate", pool=rng.choice([1, 2, 4]), n_ext=1, nmsgs=5, flags_fixed=0, dst_mode=4,
                         dst_k=0, gate=1, gate_dst=0, shutdown_behind_gate=2))
-    # C5: messages accepted by the shared virtual thread are still queued when the shutdown starts (single gated worker)
+    # C5: messages accepted by the shared virtual thread are still queued when the shutdown starts (every worker gated;
+    # with park_in_stop the workers leave their loops together)
     for i in range(2 * scale):
-        out.append(base(rng, family="pvt-backlog-at-shutdown", pool=1, n_ext=1, nmsgs=5, flags_fixed=0, dst_mode=4,
-                        dst_k=0, gate=1, gate_dst=0, shutdown_behind_gate=3))
+        out.append(base(rng, family="pvt-backlog-at-shutdown", pool=rng.choice([1, 2, 4]), n_ext=1, nmsgs=5, flags_fixed=0, dst_mode=4,
+                        dst_k=0, gate=1, gate_dst=0, shutdown_behind_gate=3, park_in_stop=i % 2))
     # C6: a sender races tp_shutdown(), perturbed between its running test and its queue write
     for i in range(6 * scale):
         out.append(base(rng, family="send-races-shutdown", pool=rng.choice([1, 2, 4]), n_ext=1, nmsgs=5, flags_fixed=0, dst_mode=0,
